@@ -171,6 +171,18 @@ impl EventLoops {
         Self::round_robin().submit_co(f, stack_size, priority)
     }
 
+    /// Verification access: hand a caller-built (hence caller-named) coroutine to the next
+    /// event loop, the way `submit_co` hands over the ones it creates itself.
+    ///
+    /// # Errors
+    /// see `Scheduler::submit_raw_co`.
+    #[cfg(feature = "verif")]
+    pub fn verif_submit_raw_co(
+        co: crate::scheduler::SchedulableCoroutine<'static>,
+    ) -> std::io::Result<u64> {
+        Self::round_robin().submit_raw_co(co)
+    }
+
     /// Waiting for read or write events to occur.
     /// This method can only be used in coroutines.
     pub fn wait_event(timeout: Option<Duration>) -> std::io::Result<()> {
